@@ -2,6 +2,8 @@
 Each is listed in the evidence of the properties whose proofs go through it."""
 from pyvc.spec import *
 
+GROUP = 'rpc'   # contracts of one group use each other's contracts at call sites (pyvc/hooks.py contract_for_call)
+
 
 @contract('supervisordata:SupervisorData.update_extra_args', props=[])
 class UpdateExtraArgs:
